@@ -16,6 +16,8 @@ def call(P, spec, budget=None, wall=20):
     rdp, metrics = _mods()
     f = spec["f"]
     n = len(P)
+    if spec.get("dtype") == "int64":          # the same (integral) values stored as an int64 array
+        P = np.asarray(P).astype(np.int64)
     kw = {}
     if "distance" in spec:
         kw["distance"] = rdp.Distance(spec["distance"])
@@ -96,6 +98,18 @@ def harvest_thresholds(P, cost, rng, k=3):
     return out
 
 
+def integral(P):
+    P = np.asarray(P, float)
+    return bool(np.all(P == np.floor(P)) and np.all(np.abs(P) < 2 ** 40))
+
+
+def maybe_int(rng, P, spec, prob=0.35):
+    """for integral curves, sometimes ask for the int64 representation"""
+    if integral(P) and rng.random() < prob:
+        spec = dict(spec, dtype="int64")
+    return spec
+
+
 def random_spec(rng, P, f=None):
     n = len(P)
     f = f or rng.choice(["rdp", "grdp", "rdp_fixed", "mp_grdp", "min_point_rdp"])
@@ -114,4 +128,4 @@ def random_spec(rng, P, f=None):
     if f == "min_point_rdp":
         spec.update(ts=rng.sample([0.5, 0.1, 0.01, 0.001, 0.0001, 0.05], rng.randint(1, 3)),
                     min_points=rng.randint(0, n + 1))
-    return spec
+    return maybe_int(rng, P, spec)
